@@ -394,11 +394,10 @@ func ipcPermissionsOnEveryBind(p *Prog, r *Report, R string) {
 				}
 				for k := from; k < len(b.Instrs); k++ {
 					x := b.Instrs[k]
-					if st, ok := x.(*ssa.Store); ok {
-						if fa, ok := st.Addr.(*ssa.FieldAddr); ok && fieldName(fa.X.Type(), fa.Field) == "listener" {
-							bad = "the installation of the listener at " + p.InstrPos(x)
-							return
-						}
+					// the point of no return: the accept goroutine is started
+					if _, ok := x.(*ssa.Go); ok && cont == nil {
+						bad = "the start of the accept loop at " + p.InstrPos(x)
+						return
 					}
 					if ret, ok := x.(*ssa.Return); ok {
 						if cont != nil {
@@ -414,7 +413,9 @@ func ipcPermissionsOnEveryBind(p *Prog, r *Report, R string) {
 							growPhis(cont.Parent(), e2)
 							walkFrom(cont.Parent(), cont.Block(), instrIndex(cont)+1, e2, nil, map[*ssa.BasicBlock]bool{})
 						}
-						_ = ret
+						if cont == nil && len(ret.Results) == 1 && IsNilConst(ret.Results[0]) {
+							bad = "the successful return at " + p.InstrPos(x)
+						}
 						return
 					}
 				}
